@@ -5,7 +5,7 @@ CONSTANTS
   Kind = "contacts"
   Atoms <- AtomsListS
   Prefix <- PfxNone
-  MaxLen = 6
+  MaxLen = 7
   Cfgs <- CfgsCont
   Junk = 34
   EmitOn = TRUE
